@@ -69,7 +69,7 @@ func init() {
 		Assumptions: []string{"declared lengths in (6, 2^21] are excluded from family (b): they only differ in how much absent payload is waited for"},
 		Outside:     []string{"fully symbolic inputs longer than N bytes", "allocation below 1 MiB per request is not judged"},
 		Bounds: map[string]any{
-			"quick":    "N = 4 fully symbolic bytes (readNextMessage and streamTo); family (b) with k ∈ {1,2,7,10}",
+			"quick":    "N = 4 fully symbolic bytes (readNextMessage and streamTo); family (b) with k ∈ {1,2,7,19} (19 digits reach 2^62..2^63, where doubling a map length wraps)",
 			"thorough": "N = 5; family (b) with k ∈ {1,2,7,10,19,20}",
 		},
 		specs: func(tier string) []specRef {
